@@ -41,6 +41,10 @@ def gen_case(rng, i, tier):
             main += "{{/mk}}"
         if main.endswith("}}") and "{{#> p0 " in main[main.rfind("{{#"):]:
             main += "{{/p0}}"
+    if rng.chance(0.2):
+        # invisible characters at the very start of the text (a byte order mark, a zero-width space) are template text like any
+        # other: every route – string, precompiled, file – compiles the same characters
+        main = rng.pick(["\ufeff", "\ufeff{{!c}}\n", "\u200b{{!c}}\n", "\ufeff  {{> p0}}\n", "\ufeff{{#if a}}\nx\n{{/if}}\n", "\ufeff\ufeff", "\u2060"]) + main
     pbfail = rng.chance(0.3)
     if pbfail:
         # a failing tag written in main but rendered from inside another partial (a partial-block body, an inline partial):
@@ -76,12 +80,25 @@ def gen_case(rng, i, tier):
     calls = []
     for api in NAMED:
         calls.append({"op": "render", "reg": 0, "api": api, "name": "main", "data": d})
+    if not devfile:
+        # the same text registered from a FILE (outside dev mode: read once, at registration)
+        ops = ops + [{"op": "write_file", "file": "f9", "content": main}, {"op": "reg_file", "reg": 0, "name": "mainf", "file": "f9"}]
+        calls.append({"op": "render", "reg": 0, "api": rng.pick(NAMED), "name": "mainf", "data": d})
     for api in UNNAMED:
         calls.append({"op": "render", "reg": 0, "api": api, "src": main, "data": d})
     if not cfg["prevent_indent"] and not devfile:
         # Template::compile_with_name has no prevent_indent option: "precompiled with the same options" exists only then
         calls.append({"op": "render", "reg": 0, "api": "render", "name": "pre", "data": d})
     batch = list(calls)
+    if rng.chance(0.3):
+        # "data given as a Rust value renders as its serde_json form": a value serde_json cannot represent (u128::MAX) fails alike
+        # at EVERY entry point with the serialization error – also when the template name is unknown or the source does not compile
+        for api in NAMED:
+            for nm in ("main", "nosuch"):
+                batch.append({"op": "render", "reg": 0, "api": api, "name": nm, "data": d, "rust_data": "u128max"})
+        for api in UNNAMED:
+            for sr in (main, "{{> nosuch}}", "{{#if"):
+                batch.append({"op": "render", "reg": 0, "api": api, "src": sr, "data": d, "rust_data": "u128max"})
     # a second pass in another order, interleaved with renders of another template
     other = {"op": "render", "reg": 0, "api": "render", "name": "p0", "data": d}
     perm = rng.shuffle(calls)
@@ -137,6 +154,10 @@ def oracle(case, meta, impl):
     same = {}
     for op, r in zip(ops, rs):
         if op["op"] not in ("render", "render_mt"):
+            continue
+        if op.get("rust_data"):
+            if not (r.get("r") == "rerr" and r.get("reason") == "SerdeError"):
+                v.append("entry point %s on data serde_json cannot represent gave %s %s, not the serialization error" % (op.get("api"), r.get("r"), r.get("reason", r.get("out"))))
             continue
         if op.get("same"):
             c = canon(r)
